@@ -7,7 +7,7 @@ from .props import PROPS
 VERIF = os.path.dirname(os.path.dirname(os.path.abspath(__file__)))
 ALL = ["C%02d" % i for i in range(1, 21)]
 
-HOOK_COMMITS = ["86325f1"]
+HOOK_COMMITS = ["86325f1", "34d8889"]
 
 
 def main():
